@@ -268,3 +268,13 @@ package httpgen
 //@   at-call json.Marshal requires final_map_n: isType(arg0, map[string]json.RawMessage) ==> (x.N != 0 ==> inDom(asType(arg0, map[string]json.RawMessage), "n") && asType(arg0, map[string]json.RawMessage)["n"] == result0(json.Marshal(x.N))) && (x.N == 0 ==> !inDom(asType(arg0, map[string]json.RawMessage), "n"))
 //@   at-call json.Marshal requires final_map_u: isType(arg0, map[string]json.RawMessage) ==> (x.U != 0 ==> inDom(asType(arg0, map[string]json.RawMessage), "u") && asType(arg0, map[string]json.RawMessage)["u"] == result0(json.Marshal(x.U))) && (x.U == 0 ==> !inDom(asType(arg0, map[string]json.RawMessage), "u"))
 //@   ensures nil_message: x == nil ==> err == nil
+
+// ---- root-unwrap list codec of one message of the extraction schema (C05): the body is the JSON array of the
+// elements, each in its own proto3 JSON form (protojson, since the element type has no codec of its own) ----
+
+//@ emitted func (x *NoteList) MarshalJSON() (b []byte, err error)
+//@   modifies *
+//@   at-call protojson.Marshal requires element_in_order: x != nil && 0 <= _i1 && _i1 < len(x.Items) && arg0 == x.Items[_i1]
+//@   at-call json.Marshal requires array_of_elements: isType(arg0, []json.RawMessage) && (forall k int :: 0 <= k && k < len(asType(arg0, []json.RawMessage)) ==> true) && len(asType(arg0, []json.RawMessage)) == len(x.Items)
+//@   loop 1 invariant len(items) == _i1 && count("protojson.Marshal") == old(count("protojson.Marshal")) + _i1
+//@   ensures every_element_encoded: x != nil && err == nil ==> count("protojson.Marshal") == old(count("protojson.Marshal")) + len(x.Items) && count("json.Marshal") == old(count("json.Marshal")) + 1
